@@ -391,26 +391,6 @@ def run(ctx: common.Ctx):
       ctx.corr_mismatch(op, inp, _shape(impl_v), o[:200], f'unparsable model output: {e}')
 
   phase('correspondence: compare')
-  # ------------------------------------------------------------------ Hyp: separable Gram criterion on factory grids
-  for name in (FACTORY_QUICK if ctx.quick else FACTORY_THOROUGH):
-    for impl_cls, iname in ((sh.RealSphericalHarmonics, 'real'), (sh.FastSphericalHarmonics, 'fast')):
-      if iname == 'fast' and ctx.quick and name != 'T21':
-        continue
-      inp = dict(factory=name, impl=iname)
-      with ctx.impl('factory-grid', inp):
-        g = getattr(sh.Grid, name)(spherical_harmonics_impl=impl_cls)
-        cfg = (iname, g.longitude_wavenumbers, g.total_wavenumbers, g.longitude_nodes, g.latitude_nodes,
-               g.latitude_spacing, 0.0, None, {})
-        dev, detail = separable_gram_deviation(g, cfg)
-        ok = dev <= TOL
-        ctx.obligation(f'hyp:gram[{name},{iname}]', 'hypothesis', ok, f'max deviation {dev:.2e} ({detail})')
-        ctx.case(('hyp', name, iname), nontrivial=True)
-        if not ok:
-          ctx.fail('factory-gram', f'Gram tensor of {name} ({iname}) deviates {dev:.3e} from the identity on the '
-                   f'resolved block at {detail}', inp)
-        probe_grid(ctx, jnp, sh, g, cfg, dict(factory=name, impl=iname), nspec=ctx.n(1, 3), units=ctx.n(4, 12))
-
-  phase('hyp: factory grids')
   # ------------------------------------------------------------------ sentinel probes on the table
   for cfg, g in grids:
     probe_grid(ctx, jnp, sh, g, cfg, cfg_dict(cfg), nspec=ctx.n(2, 4), units=ctx.n(6, 20))
@@ -434,6 +414,26 @@ def run(ctx: common.Ctx):
         ctx.case(('quad', spacing, J), nontrivial=J >= 2)
 
   phase('probes')
+  # ------------------------------------------------------------------ Hyp: separable Gram criterion on factory grids
+  for name in (FACTORY_QUICK if ctx.quick else FACTORY_THOROUGH):
+    for impl_cls, iname in ((sh.RealSphericalHarmonics, 'real'), (sh.FastSphericalHarmonics, 'fast')):
+      if iname == 'fast' and ctx.quick and name != 'T21':
+        continue
+      inp = dict(factory=name, impl=iname)
+      with ctx.impl('factory-grid', inp):
+        g = getattr(sh.Grid, name)(spherical_harmonics_impl=impl_cls)
+        cfg = (iname, g.longitude_wavenumbers, g.total_wavenumbers, g.longitude_nodes, g.latitude_nodes,
+               g.latitude_spacing, 0.0, None, {})
+        dev, detail = separable_gram_deviation(g, cfg)
+        ok = dev <= TOL
+        ctx.obligation(f'hyp:gram[{name},{iname}]', 'hypothesis', ok, f'max deviation {dev:.2e} ({detail})')
+        ctx.case(('hyp', name, iname), nontrivial=True)
+        if not ok:
+          ctx.fail('factory-gram', f'Gram tensor of {name} ({iname}) deviates {dev:.3e} from the identity on the '
+                   f'resolved block at {detail}', inp)
+        probe_grid(ctx, jnp, sh, g, cfg, dict(factory=name, impl=iname), nspec=ctx.n(1, 3), units=ctx.n(4, 12))
+
+  phase('hyp: factory grids')
   if not ctx.quick:
     ctx.leanchecker(['DinoProofs.Properties.C01'])
   return ctx.finish(RULE, 'theorems are about the Lean model Dino.SH/Legendre/Fourier; sqrt, cos, sin, pi and the '
